@@ -88,8 +88,12 @@ KINK_F1 = ("abs", "H")
 
 
 def _digamma(x):
+    if x < -64 or x != x:
+        return _INF         # only used for an error bound: far on the negative axis the bound is simply given up
     r = 0.0
     while x < 6:
+        if x == 0:
+            return _INF
         r -= 1 / x
         x += 1
     f = 1 / (x * x)
